@@ -634,6 +634,16 @@ class Env:
             o.at_end = t == "T"
         elif f == "version":
             o.version = self.to_version(t)
+        elif f == "kindflip":
+            # the node with this UUID becomes a block of the other class: a new object replaces the old one in its interval
+            cls = self.g.CodeBlock if t == "T" else self.g.DataBlock
+            if not type(o) is cls:
+                new = cls(size=o.size, offset=o.offset, uuid=o.uuid)
+                bi = o.byte_interval
+                if bi is not None:
+                    bi.blocks.discard(o)
+                    bi.blocks.add(new)
+                self._set(h, new)
         elif f == "xoffset":
             o.offset = self.to_i64(t)
         elif f == "xscale":
@@ -1044,6 +1054,8 @@ class Env:
             out[h] = {"at_end": "T" if self.obj[h].at_end else "F"}
         for h in self._by("code"):
             out[h] = {"decode_mode": SCHEMA.token("DecodeMode", self.obj[h].decode_mode.value)}
+        for h in self._by("data"):
+            out[h] = {"kindflip": "T" if isinstance(self.obj[h], self.g.CodeBlock) else "F"}
         for h in self._by("expr"):
             o = self.obj[h]
             out[h] = {"xoffset": self.i64_token(o.offset)}
